@@ -117,3 +117,33 @@ pub static TWO_STEP: Target = Target {
     run: run_two_step,
     reference: ref_two_step,
 };
+
+// ---- further self-delimiting entry points (no reference walker: used by the relational checks)
+pub static EXT_CLIENT: Target = target!(parse_tls_client_hello_extension, no_ref);
+pub static EXT_SERVER: Target = target!(parse_tls_server_hello_extension, no_ref);
+pub static RECORD_HEADER: Target = target!(parse_tls_record_header, no_ref);
+pub static DTLS_RECORD_HEADER: Target = target!(parse_dtls_record_header, no_ref);
+pub static T_SNI: Target = target!(parse_tls_extension_sni, no_ref);
+pub static T_MFL: Target = target!(parse_tls_extension_max_fragment_length, no_ref);
+pub static T_STATUS: Target = target!(parse_tls_extension_status_request, no_ref);
+pub static T_GROUPS: Target = target!(parse_tls_extension_elliptic_curves, no_ref);
+pub static T_POINTS: Target = target!(parse_tls_extension_ec_point_formats, no_ref);
+pub static T_SIGALGS: Target = target!(parse_tls_extension_signature_algorithms, no_ref);
+pub static T_HB: Target = target!(parse_tls_extension_heartbeat, no_ref);
+pub static T_ETM: Target = target!(parse_tls_extension_encrypt_then_mac, no_ref);
+pub static T_EMS: Target = target!(parse_tls_extension_extended_master_secret, no_ref);
+pub static T_TICKET: Target = target!(parse_tls_extension_session_ticket, no_ref);
+pub static T_KEYSHARE: Target = target!(parse_tls_extension_key_share, no_ref);
+pub static T_PSK: Target = target!(parse_tls_extension_pre_shared_key, no_ref);
+pub static T_EARLY: Target = target!(parse_tls_extension_early_data, no_ref);
+pub static T_VERSIONS: Target = target!(parse_tls_extension_supported_versions, no_ref);
+pub static T_COOKIE: Target = target!(parse_tls_extension_cookie, no_ref);
+pub static T_PSKMODES: Target = target!(parse_tls_extension_psk_key_exchange_modes, no_ref);
+pub static SNI_HOSTNAME: Target = target!(parse_tls_extension_sni_hostname, no_ref);
+
+pub fn tagged_ext_targets() -> Vec<&'static Target> {
+    vec![
+        &T_SNI, &T_MFL, &T_STATUS, &T_GROUPS, &T_POINTS, &T_SIGALGS, &T_HB, &T_ETM, &T_EMS, &T_TICKET, &T_KEYSHARE, &T_PSK,
+        &T_EARLY, &T_VERSIONS, &T_COOKIE, &T_PSKMODES,
+    ]
+}
